@@ -152,6 +152,11 @@ pub fn roundtrip_program_ast(ast: &ProgramAst, text: &str, exec_stack: Option<Ve
             if cb_hashes(&p1, text) != cb_hashes(&p2, text) {
                 return Err(Viol::new("C10:recompile-differs", "compiling the round-tripped AST gives another MAST root / kernel / call-target set", cj("")));
             }
+            // adv.insert_mem copies the memory range [a, b) named by two stack items into the advice
+            // map; with generated stack items the range can span billions of words and the
+            // allocation aborts the process (an out-of-memory abort, exit 2, not a verdict): such
+            // sources are round-tripped and compiled but not executed
+            let exec_stack = if text.contains("adv.insert_mem") { None } else { exec_stack };
             if let Some(stack) = exec_stack {
                 let case = vm::Case { stack, adv: vec![1, 2, 3, 4, 5, 6, 7, 8], ..vm::Case::default() };
                 let o = |p: &vm_core::Program| match vm::run(p, &case, ExecutionOptions::new(Some(20_000), 64, false).unwrap()) {
